@@ -159,6 +159,20 @@ CHECKS['C06'] = dict(
    technique="TLA+ evaluation of the scoring/matching machine on the real table (TLC, exhaustive) + spec->code replay",
    ref="5/C06")
 
+CHECKS['C09'] = dict(
+   text="HtmlDoc.tla builds every document of up to N segments (19 segment kinds: open tags with quoted / unquoted / expression / "
+        "boolean / *ng / #ref attributes containing '>', close, self-closed, void, comment / CDATA / PI with tag-like bodies, style and "
+        "script with markup-like bodies, script with a non-special type, text with a stray '>') in HTML and in XML mode while "
+        "recording the ground truth (element ranges, depth, parent, attribute offsets, expected scan events). TLC checks, at every "
+        "position of every complete document, that the code's stack machines for match / balanced_outward / balanced_inward (early "
+        "exit, first-child chain) equal the stack-free contract on the truth table, and that the truth slices to the tags. Every "
+        "document is then given to the real scan / match / balanced_outward / balanced_inward at every position; names, open / close "
+        "ranges and attribute name / value ranges and slices must equal the truth.",
+   note="Well-nested documents with fixed segment texts (malformed input: C16). Exhaustive to 3-4 segments quick / 5 thorough, "
+        "simulated to 25 segments and depth 6.",
+   technique="TLA+ machines = contract at every position (TLC) + spec->code replay of every document and position",
+   ref="5/C09")
+
 NOT_YET = {}
 
 def main():
